@@ -1,1 +1,368 @@
-From BiomV Require Import Model.Err.
+(* proofs for C20 over the model of biom/err.py *)
+From Coq Require Import List String Bool Arith ZArith Lia.
+From BiomV Require Import Base.Tree Base.ListUtil Base.Dict Model.Err.
+Import ListNotations.
+Open Scope string_scope. Open Scope list_scope.
+Local Arguments smem : simpl never.
+Local Arguments dmem : simpl never.
+Local Arguments valid_states : simpl never.
+
+(* a profile state is well formed when its kinds are distinct and every reaction is valid *)
+Definition wf_state (s : dict string) : Prop :=
+  NoDup (dkeys s) /\ Forall (fun kv => smem (snd kv) valid_states = true) s /\ dmem s "all" = false.
+
+Lemma smem_In x l : smem x l = true <-> In x l.
+Proof.
+  unfold smem. rewrite existsb_exists. split.
+  - intros [y [Hy He]]. apply String.eqb_eq in He. subst. exact Hy.
+  - intros H. exists x. split; [exact H|apply String.eqb_refl].
+Qed.
+
+Lemma dmem_In {V} (d : dict V) k : dmem d k = true <-> In k (dkeys d).
+Proof.
+  unfold dmem, dkeys. induction d as [|[k' v] t IH]; simpl.
+  - split; [discriminate|intros []].
+  - destruct (String.eqb k k') eqn:E.
+    + apply String.eqb_eq in E. subst. split; [left; reflexivity|reflexivity].
+    + rewrite IH. apply String.eqb_neq in E. split; [right; assumption|intros [H|H]; [congruence|exact H]].
+Qed.
+
+(* ---------- the state setter ---------- *)
+Lemma validate_raise_stays s l e : fold_left (validate_body s) l (Raise e) = Raise e.
+Proof. induction l as [|kv l IH]; simpl; [reflexivity|exact IH]. Qed.
+
+(* validation succeeds exactly when every entry names a known kind and a valid reaction *)
+Lemma validate_ok_iff s l :
+  (exists u, fold_left (validate_body s) l (Ok tt) = Ok u) <->
+  Forall (fun kv => smem (snd kv) valid_states = true /\ dmem s (fst kv) = true) l.
+Proof.
+  induction l as [|[k v] l IH]; simpl.
+  - split; [constructor|exists tt; reflexivity].
+  - destruct (smem v valid_states) eqn:E1; simpl.
+    + destruct (dmem s k) eqn:E2; simpl.
+      * rewrite IH. split; [intros H; constructor; [split; assumption|exact H]|intros H; inversion H; assumption].
+      * rewrite validate_raise_stays. split; [intros [u Hu]; discriminate|].
+        intros H. inversion H as [|? ? [_ Hk] _]; subst. simpl in Hk. congruence.
+    + rewrite validate_raise_stays. split; [intros [u Hu]; discriminate|].
+      intros H. inversion H as [|? ? [Hv _] _]; subst. simpl in Hv. congruence.
+Qed.
+
+Lemma apply_keys s l :
+  Forall (fun kv => dmem s (fst kv) = true) l -> dkeys (fold_left apply_body l s) = dkeys s.
+Proof.
+  revert s. induction l as [|[k v] l IH]; intros s H; simpl; [reflexivity|].
+  inversion H as [|? ? Hk Hl]; subst. simpl in Hk. unfold apply_body at 2. simpl.
+  rewrite IH.
+  - apply dkeys_dset_mem. exact Hk.
+  - eapply Forall_impl; [|exact Hl]. intros [k' v'] Hk'. simpl in *.
+    apply dmem_In. rewrite dkeys_dset_mem by exact Hk. apply dmem_In. exact Hk'.
+Qed.
+
+Lemma dset_values_valid (s : dict string) k v :
+  Forall (fun kv => smem (snd kv) valid_states = true) s -> smem v valid_states = true ->
+  Forall (fun kv => smem (snd kv) valid_states = true) (dset s k v).
+Proof.
+  intros H Hv. induction s as [|[k' v'] t IH]; simpl.
+  - constructor; [exact Hv|constructor].
+  - inversion H as [|? ? H1 H2]; subst. destruct (String.eqb k k').
+    + constructor; [exact Hv|exact H2].
+    + constructor; [exact H1|apply IH; exact H2].
+Qed.
+
+Lemma apply_values_valid s l :
+  Forall (fun kv => smem (snd kv) valid_states = true) s ->
+  Forall (fun kv => smem (snd kv) valid_states = true) l ->
+  Forall (fun kv => smem (snd kv) valid_states = true) (fold_left apply_body l s).
+Proof.
+  revert s. induction l as [|[k v] l IH]; intros s Hs Hl; simpl; [exact Hs|].
+  inversion Hl as [|? ? H1 H2]; subst. apply IH; [|exact H2].
+  apply dset_values_valid; assumption.
+Qed.
+
+(* the update is all-or-nothing, and a successful one keeps the profile well formed *)
+Theorem state_set_atomic s n s' e : state_set s n = (s', Raise e) -> s' = s.
+Proof.
+  unfold state_set. destruct (fold_left _ _ (Ok tt)); intros H; inversion H; reflexivity.
+Qed.
+
+Lemma state_set_wf s n s' u : wf_state s -> state_set s n = (s', Ok u) -> wf_state s' /\ dkeys s' = dkeys s.
+Proof.
+  intros (Hn & Hv & Ha). unfold state_set.
+  remember (if dmem n "all"
+            then map (fun err => (err, match dget n "all" with Some v => v | None => "" end)) (dkeys s)
+            else n) as tu eqn:Etu. clear Etu.
+  destruct (fold_left (validate_body s) tu (Ok tt)) as [u'|e] eqn:V; intros H; inversion H; subst; clear H.
+  assert (F : Forall (fun kv => smem (snd kv) valid_states = true /\ dmem s (fst kv) = true) tu).
+  { apply validate_ok_iff. exists u'. destruct u'. exact V. }
+  assert (K : dkeys (fold_left apply_body tu s) = dkeys s).
+  { apply apply_keys. eapply Forall_impl; [|exact F]. intros kv [_ H]. exact H. }
+  split; [|exact K]. repeat split.
+  - rewrite K. exact Hn.
+  - apply apply_values_valid; [exact Hv|]. eapply Forall_impl; [|exact F]. intros kv [H _]. exact H.
+  - destruct (dmem (fold_left apply_body tu s) "all") eqn:E; [|reflexivity].
+    apply dmem_In in E. rewrite K in E. apply dmem_In in E. congruence.
+Qed.
+
+(* ---------- seterr ---------- *)
+Theorem seterr_atomic_lemma s kw s' e : seterr s kw = (s', Raise e) -> s' = s.
+Proof.
+  unfold seterr. destruct (dmem kw "all").
+  - destruct (state_set s _) as [s1 [u|e1]] eqn:E; intros H; inversion H; subst.
+    eapply state_set_atomic. exact E.
+  - destruct (state_set s kw) as [s1 [u|e1]] eqn:E; intros H; inversion H; subst.
+    eapply state_set_atomic. exact E.
+Qed.
+
+Lemma seterr_ok s kw s' old : wf_state s -> seterr s kw = (s', Ok old) ->
+  old = s /\ wf_state s' /\ dkeys s' = dkeys s.
+Proof.
+  intros W. unfold seterr. destruct (dmem kw "all").
+  - destruct (state_set s _) as [s1 [u|e1]] eqn:E; intros H; inversion H; subst.
+    split; [reflexivity|]. eapply state_set_wf; eassumption.
+  - destruct (state_set s kw) as [s1 [u|e1]] eqn:E; intros H; inversion H; subst.
+    split; [reflexivity|]. eapply state_set_wf; eassumption.
+Qed.
+
+Lemma seterr_wf s kw : wf_state s -> wf_state (fst (seterr s kw)) /\ dkeys (fst (seterr s kw)) = dkeys s.
+Proof.
+  intros W. destruct (seterr s kw) as [s' [old|e]] eqn:E; simpl.
+  - destruct (seterr_ok _ _ _ _ W E) as (_ & A & B). split; assumption.
+  - apply seterr_atomic_lemma in E. subst. split; [exact W|reflexivity].
+Qed.
+
+(* an unknown kind or reaction is refused (when 'all' is not given every entry is examined) *)
+Theorem seterr_refuses s kw :
+  dmem kw "all" = false ->
+  (exists k v, In (k, v) kw /\ (dmem s k = false \/ smem v valid_states = false)) ->
+  exists e, seterr s kw = (s, Raise e).
+Proof.
+  intros Ha [k [v [Hin Hbad]]]. unfold seterr, state_set. rewrite Ha.
+  destruct (fold_left (validate_body s) kw (Ok tt)) as [u|e] eqn:V.
+  - exfalso. assert (F : Forall (fun kv => smem (snd kv) valid_states = true /\ dmem s (fst kv) = true) kw)
+      by (apply validate_ok_iff; exists u; exact V).
+    rewrite Forall_forall in F. destruct (F (k, v) Hin) as [A B]. simpl in *. destruct Hbad; congruence.
+  - exists e. reflexivity.
+Qed.
+
+(* ---------- restoring a saved state ---------- *)
+Lemma dset_app_notin {V} (a b : dict V) k v :
+  ~ In k (dkeys a) -> dset (a ++ b) k v = a ++ dset b k v.
+Proof.
+  intros H. induction a as [|[k' v'] a IH]; simpl; [reflexivity|].
+  destruct (String.eqb k k') eqn:E.
+  - apply String.eqb_eq in E. subst. exfalso. apply H. left. reflexivity.
+  - f_equal. apply IH. intros Hin. apply H. right. exact Hin.
+Qed.
+
+Lemma restore_prefix (o1 o2 s2 : dict string) :
+  NoDup (dkeys (o1 ++ o2)) -> dkeys s2 = dkeys o2 ->
+  fold_left apply_body o2 (o1 ++ s2) = o1 ++ o2.
+Proof.
+  revert o1 s2. induction o2 as [|[k v] o2 IH]; intros o1 s2 Hn Hk; simpl.
+  - destruct s2; [reflexivity|discriminate].
+  - destruct s2 as [|[k' v'] s2]; [discriminate|]. simpl in Hk. injection Hk as Hk1 Hk2. subst k'.
+    unfold apply_body at 2. simpl.
+    assert (Hnot : ~ In k (dkeys o1)).
+    { unfold dkeys in *. rewrite map_app in Hn. simpl in Hn. apply NoDup_remove_2 in Hn.
+      intros Hin. apply Hn. apply in_or_app. left. exact Hin. }
+    rewrite dset_app_notin by exact Hnot. simpl. rewrite String.eqb_refl.
+    replace (o1 ++ (k, v) :: s2) with ((o1 ++ [(k, v)]) ++ s2) by (rewrite <- app_assoc; reflexivity).
+    rewrite IH.
+    + rewrite <- app_assoc. reflexivity.
+    + rewrite <- app_assoc. exact Hn.
+    + exact Hk2.
+Qed.
+
+(* seterr( **old ) puts back exactly the saved state, whatever was changed in between *)
+Lemma restore_exact s old : wf_state old -> dkeys s = dkeys old -> fst (seterr s old) = old.
+Proof.
+  intros (Hn & Hv & Ha) Hk. unfold seterr, state_set. rewrite Ha.
+  assert (F : Forall (fun kv => smem (snd kv) valid_states = true /\ dmem s (fst kv) = true) old).
+  { apply Forall_forall. intros [k v] Hin. simpl. split.
+    - rewrite Forall_forall in Hv. apply (Hv (k, v) Hin).
+    - apply dmem_In. rewrite Hk. unfold dkeys. apply in_map_iff. exists (k, v). split; [reflexivity|exact Hin]. }
+  apply validate_ok_iff in F. destruct F as [u V]. rewrite V. simpl.
+  apply (restore_prefix [] old s); [exact Hn|exact Hk].
+Qed.
+
+(* ---------- programs ---------- *)
+Section InstrInd.
+  Variable P : instr -> Prop.
+  Hypothesis H1 : forall kw, P (ISeterr kw).
+  Hypothesis H2 : forall k cb, P (ISetcall k cb).
+  Hypothesis H3 : forall k, P (IGetcall k).
+  Hypothesis H4 : forall v args, P (ICheck v args).
+  Hypothesis H5 : forall kw body exc, Forall P body -> P (IBlock kw body exc).
+  Fixpoint instr_ind' (i : instr) : P i :=
+    match i with
+    | ISeterr kw => H1 kw
+    | ISetcall k cb => H2 k cb
+    | IGetcall k => H3 k
+    | ICheck v args => H4 v args
+    | IBlock kw body exc =>
+        H5 kw body exc ((fix go (l : list instr) : Forall P l :=
+                           match l with [] => Forall_nil P | x :: r => Forall_cons x (instr_ind' x) (go r) end) body)
+    end.
+End InstrInd.
+
+Definition keeps_wf (i : instr) : Prop :=
+  forall p, wf_state (st p) -> wf_state (st (fst (exec p i))) /\ dkeys (st (fst (exec p i))) = dkeys (st p).
+
+Lemma exec_list_unfold p l :
+  (fix go (p : profile) (l : list instr) : profile * list obs :=
+     match l with
+     | [] => (p, [])
+     | i :: t => let '(p', o1) := exec p i in let '(p'', o2) := go p' t in (p'', o1 ++ o2)
+     end) p l = exec_list p l.
+Proof. revert p. induction l as [|i l IH]; intros p; simpl; [reflexivity|]. destruct (exec p i). rewrite IH. reflexivity. Qed.
+
+Lemma exec_list_wf l : Forall keeps_wf l -> forall p, wf_state (st p) ->
+  wf_state (st (fst (exec_list p l))) /\ dkeys (st (fst (exec_list p l))) = dkeys (st p).
+Proof.
+  induction l as [|i l IH]; intros F p W; simpl; [split; [exact W|reflexivity]|].
+  inversion F as [|? ? Hi Hl]; subst.
+  destruct (Hi p W) as [W1 K1]. destruct (exec p i) as [p1 o1] eqn:E1. simpl in *.
+  destruct (IH Hl p1 W1) as [W2 K2]. destruct (exec_list p1 l) as [p2 o2]. simpl in *.
+  split; [exact W2|congruence].
+Qed.
+
+Lemma exec_block p kw body exc :
+  exec p (IBlock kw body exc) =
+  match errstate_enter (st p) kw with
+  | (s1, Raise e) => let p1 := {| st := s1; calls := calls p |} in (p1, [OEnter false; snap p1])
+  | (s1, Ok old) =>
+      let p1 := {| st := s1; calls := calls p |} in
+      let '(p2, os) := exec_list p1 body in
+      let s3 := if exc then errstate_exit_exception (st p2) old else errstate_exit_normal (st p2) old in
+      let p3 := {| st := s3; calls := calls p2 |} in
+      (p3, [OEnter true; snap p1] ++ os ++ [OExit; snap p3])
+  end.
+Proof.
+  cbn [exec]. destruct (errstate_enter (st p) kw) as [s1 [old|e]]; [|reflexivity].
+  rewrite exec_list_unfold. reflexivity.
+Qed.
+
+(* A scoped override restores the previous profile on exit: for every body (any nesting, any
+   seterr inside), both when the block completes and when it is left by an exception, and
+   also when entering is refused. *)
+Lemma block_restores kw body exc : Forall keeps_wf body ->
+  forall p, wf_state (st p) -> st (fst (exec p (IBlock kw body exc))) = st p.
+Proof.
+  intros F p W. rewrite exec_block. unfold errstate_enter.
+  destruct (seterr (st p) kw) as [s1 [old|e]] eqn:E.
+  - destruct (seterr_ok _ _ _ _ W E) as (Hold & W1 & K1). subst old.
+    pose (p1 := {| st := s1; calls := calls p |}).
+    destruct (exec_list_wf body F p1 W1) as [W2 K2].
+    cbn zeta. fold p1. destruct (exec_list p1 body) as [p2 os]. simpl in *.
+    unfold errstate_exit_exception, errstate_exit_normal.
+    destruct exc; apply restore_exact; try exact W; congruence.
+  - simpl. eapply seterr_atomic_lemma. exact E.
+Qed.
+
+Lemma all_keep_wf : forall i, keeps_wf i.
+Proof.
+  induction i as [kw|k cb|k|v args|kw body exc IH] using instr_ind'; intros p W.
+  - simpl. destruct (seterr (st p) kw) as [s' r] eqn:E. simpl.
+    pose proof (seterr_wf (st p) kw W) as H. rewrite E in H. exact H.
+  - simpl. destruct (seterrcall (calls p) k cb). simpl. split; [exact W|reflexivity].
+  - simpl. split; [exact W|reflexivity].
+  - simpl. split; [exact W|reflexivity].
+  - rewrite (block_restores kw body exc IH p W). split; [exact W|reflexivity].
+Qed.
+
+Theorem errstate_scoped_lemma kw body exc p :
+  wf_state (st p) -> st (fst (exec p (IBlock kw body exc))) = st p.
+Proof.
+  intros W. apply block_restores; [|exact W]. apply Forall_forall. intros i _. apply all_keep_wf.
+Qed.
+
+(* inside the block the override is in force: the body starts from the updated profile *)
+Theorem errstate_enter_applies s kw s1 old k v :
+  wf_state s -> errstate_enter s kw = (s1, Ok old) -> dmem kw "all" = false ->
+  NoDup (dkeys kw) -> In (k, v) kw -> dget s1 k = Some v.
+Proof.
+  intros W. unfold errstate_enter, seterr, state_set. intros H Ha Hn Hin. rewrite Ha in H.
+  destruct (fold_left (validate_body s) kw (Ok tt)) as [u|e]; [|discriminate].
+  inversion H as [[H1 H2]]. clear H H1 H2 W Ha s s1. revert old Hn Hin. induction kw as [|[k' v'] kw IH]; intros s Hn Hin; [destruct Hin|].
+  simpl. unfold apply_body at 2. simpl. inversion Hn as [|? ? Hk Hn']; subst.
+  destruct Hin as [Hin|Hin].
+  - inversion Hin; subst. clear IH.
+    assert (G : forall l s0, ~ In k (dkeys l) -> dget (fold_left apply_body l s0) k = dget s0 k).
+    { induction l as [|[a b] l IHl]; intros s0 Hni; simpl; [reflexivity|].
+      rewrite IHl by (intros X; apply Hni; right; exact X).
+      unfold apply_body. simpl. apply dget_dset_other. intros X. apply Hni. left. simpl. congruence. }
+    rewrite G by exact Hk. apply dget_dset_same.
+  - apply IH; assumption.
+Qed.
+
+(* reachable profiles are well formed *)
+Lemma default_wf : wf_state default_state.
+Proof.
+  unfold wf_state. repeat split.
+  - unfold dkeys, default_state. simpl. repeat constructor; simpl; intuition discriminate.
+  - repeat constructor.
+Qed.
+
+Theorem reachable_wf prog : wf_state (st (fst (exec_list default_profile prog))).
+Proof.
+  apply exec_list_wf; [|exact default_wf]. apply Forall_forall. intros i _. apply all_keep_wf.
+Qed.
+
+(* ---------- the reaction table ---------- *)
+Definition kinds : list string := ["empty";"obssize";"sampsize";"obsdup";"sampdup";"obsmdsize";"sampmdsize"].
+
+(* the view triggers the test of kind k and of no other kind *)
+Definition only_trigger (v : view) (k : string) : Prop :=
+  forallb (fun kf => Bool.eqb (snd kf v) (String.eqb (fst kf) k)) registry = true.
+
+Definition expected_event (p : profile) (k : string) : event := handle_error p k.
+
+Lemma sorted_registry :
+  ssorted (dkeys registry) = ["empty";"obsdup";"obsmdsize";"obssize";"sampdup";"sampmdsize";"sampsize"].
+Proof. vm_compute. reflexivity. Qed.
+
+Theorem reaction_honoured_lemma p v k :
+  In k kinds -> only_trigger v k -> errcheck p v [] = Ok (expected_event p k).
+Proof.
+  intros Hk T. unfold errcheck. rewrite sorted_registry.
+  unfold only_trigger, registry in T. cbn [forallb fst snd] in T.
+  repeat (apply andb_true_iff in T; destruct T as [?T T]). clear T.
+  repeat match goal with H : Bool.eqb _ _ = true |- _ => apply Bool.eqb_prop in H end.
+  unfold expected_event.
+  unfold kinds in Hk. simpl in Hk.
+  destruct Hk as [E|[E|[E|[E|[E|[E|[E|[]]]]]]]]; subst k;
+    repeat match goal with H : _ v = String.eqb _ _ |- _ => cbn in H end;
+    cbn [test_loop dget registry String.eqb Ascii.eqb Bool.eqb];
+    repeat match goal with H : _ v = _ |- _ => rewrite H; clear H end;
+    unfold is_ignored, handle_error;
+    match goal with
+    | |- context [dget (st p) ?kk] => destruct (dget (st p) kk) as [r|]; [|reflexivity]
+    end;
+    (destruct (String.eqb r "ignore") eqn:Ei;
+     [apply String.eqb_eq in Ei; subst r; reflexivity|reflexivity]).
+Qed.
+
+(* what the expected event is, reaction by reaction *)
+Lemma expected_event_table p k r :
+  dget (st p) k = Some r ->
+  expected_event p k =
+    if String.eqb r "raise" then EvRaise k else if String.eqb r "warn" then EvWarn k
+    else if String.eqb r "print" then EvPrint k
+    else if String.eqb r "call" then EvCall k (match dget (calls p) k with Some c => c | None => 0%Z end)
+    else EvNone.
+Proof. intros H. unfold expected_event, handle_error, react. rewrite H. reflexivity. Qed.
+
+(* a table whose ids are distinct never triggers a duplicate test, whatever its size *)
+Lemma distinct_NoDup l : NoDup l -> distinct l = l.
+Proof.
+  induction l as [|x l IH]; intros H; simpl; [reflexivity|].
+  inversion H as [|? ? Hx Hl]; subst. destruct (zmem x l) eqn:E.
+  - apply zmem_In in E. contradiction.
+  - rewrite IH by exact Hl. reflexivity.
+Qed.
+Theorem dup_tests_independent v :
+  (NoDup (v_oids v) -> test_obsdup v = false) /\ (NoDup (v_sids v) -> test_sampdup v = false).
+Proof.
+  unfold test_obsdup, test_sampdup. split; intros H; rewrite distinct_NoDup by exact H;
+    rewrite Nat.eqb_refl; reflexivity.
+Qed.
